@@ -70,6 +70,8 @@ pub struct Profile {
     pub same_key_type_pct: u64,
     /// Per 100: a primary key is declared with the table-constraint syntax.
     pub pk_constraint_pct: u64,
+    /// Per 100: the run uses table / column names with multi-byte characters.
+    pub unicode_names_pct: u64,
     /// Primary keys only at column 0 (what the storage range scan supports).
     pub pk_first_only: bool,
     /// Projections of range queries keep the key column first.
@@ -104,6 +106,7 @@ impl Profile {
             borrow_key_pct: 0,
             same_key_type_pct: 0,
             pk_constraint_pct: 0,
+            unicode_names_pct: 0,
             pk_first_only: false,
             key_first_projection: false,
         }
@@ -118,6 +121,7 @@ pub struct Gen<'a> {
     next_table: usize,
     next_obj: usize,
     low_card: bool,
+    unicode_names: bool,
 }
 
 /// ISO date of day number `n` (0 = 2000-01-01) in a 12 x 28-day calendar: monotone in `n`.
@@ -133,7 +137,9 @@ const STRS: &[&str] = &[
 impl<'a> Gen<'a> {
     pub fn new(rng: &'a mut Rng, prof: Profile) -> Gen<'a> {
         let low_card = rng.chance(prof.low_card_pct, 100);
+        let unicode_names = rng.chance(prof.unicode_names_pct, 100);
         Gen {
+            unicode_names,
             rng,
             model: Model::default(),
             prof,
@@ -242,7 +248,14 @@ impl<'a> Gen<'a> {
     }
 
     pub fn gen_table(&mut self) -> TableDef {
-        let name = format!("t{}", self.next_table);
+        // some runs use identifiers with multi-byte characters (they end up in manifest records:
+        // a torn write can cut one in the middle)
+        let uni = self.unicode_names;
+        let name = if uni {
+            format!("täöü{}", self.next_table)
+        } else {
+            format!("t{}", self.next_table)
+        };
         self.next_table += 1;
         let ncols = 1 + self.rng.usize(4);
         let pk = if self.rng.chance(self.prof.pk_pct, 100) {
@@ -287,7 +300,7 @@ impl<'a> Gen<'a> {
                 )
             };
             cols.push(Col {
-                name: format!("c{i}"),
+                name: if uni && i % 2 == 1 { format!("cäß{i}") } else { format!("c{i}") },
                 ty,
                 nullable,
             });
